@@ -3,7 +3,7 @@ import random
 from common import *
 
 
-def run_simple(prop, tier, seed, gen, trusted, rule, assumptions, runner_cfg="stable", post=None, also_builds=(), **cmp):
+def run_simple(prop, tier, seed, gen, trusted, rule, assumptions, runner_cfg="stable", post=None, also_builds=(), concurrent=False, **cmp):
     rng = random.Random(seed)
     res = Result(prop, tier, seed)
     lean = lean_obligations(prop)
@@ -29,6 +29,8 @@ def run_simple(prop, tier, seed, gen, trusted, rule, assumptions, runner_cfg="st
                     res.violations.append({"kind": "impl(%s)!=impl(%s)" % (cfg, runner_cfg), "line": c.line, "answers": {"impl(%s build)" % runner_cfg: a, "impl(%s build)" % cfg: b, "sodium": impl.get(c.id, ["", "n/a"])[1]},
                                            "why": "the answer depends on the build configuration (%s vs %s)" % (cfg, runner_cfg), "runner_cfg": cfg})
         res.extra["also_builds"] = list(also_builds)
+    if concurrent:
+        concurrent_pass(res, runner_cfg, lines, cases, impl)
     if post:
         post(res, cases, impl, model)
     if tier == "thorough" and lean["build_ok"]:
